@@ -237,7 +237,8 @@ func c19Judge(c *core.Ctx, k c19case, res *core.ShardResult) (vs []core.Violatio
 	}
 	gitIgnoreOld := ""
 	if k.GitIgnore {
-		gitIgnoreOld = "node_modules/\n*.log"
+		// (no trailing newline, leading blank lines, several trailing newlines, trailing escaped blank)
+		gitIgnoreOld = []string{"node_modules/\n*.log", "\n\n# mine\nfoo\n\n\n", "a\\ \n", "  lead\nx \n", "\n"}[len(k.Files)%5]
 		_ = os.WriteFile(filepath.Join(cwd, ".gitignore"), []byte(gitIgnoreOld), 0o644)
 	}
 	switch k.InitHere {
